@@ -698,18 +698,21 @@ class ODataParser(Parser):
         Returns:
             A list of all identifiers in the ``attr``
         """
-        if isinstance(attr.owner, ast.Identifier):
-            exploded = [attr.owner.name]
-        elif isinstance(attr.owner, ast.Attribute):
-            exploded = self._explode_attr(attr.owner)
-        else:
-            raise NotImplementedError()
-
-        if isinstance(attr.attr, str):
-            exploded.append(attr.attr)
-        elif isinstance(attr.attr, ast.Attribute):
-            exploded.extend(self._explode_attr(attr.attr))
-        else:
-            raise NotImplementedError
+        # NOTE: Iterative instead of recursive, because paths can be long enough
+        # to hit Python's recursion limit.
+        exploded: List[str] = []
+        todo: List[Union[ast._Node, str]] = [attr]
+        while todo:
+            part = todo.pop()
+            if isinstance(part, str):
+                exploded.append(part)
+            elif isinstance(part, ast.Identifier):
+                exploded.append(part.name)
+            elif isinstance(part, ast.Attribute):
+                # Visit the owner first, then the attribute:
+                todo.append(part.attr)
+                todo.append(part.owner)
+            else:
+                raise NotImplementedError()
 
         return exploded
